@@ -2,12 +2,19 @@
   Driver family `infer` (property C03).
 
     new                                  → ok            (a fresh session: the library's Union symbol is unextended)
+    classes <ct>                         → ok            (the user classes of the program that follows; `classes ( )` = none)
+    env <env>                            → ok            (the typed parameters of the function whose body follows)
+    decl <name> <expr>                   → ok <type>     (`name = expr`: the declaration takes the value's type, on_move_assign; extends the env)
+    bind <name> <type>                   → ok            (a declaration the model does not cover: its real type, to keep going)
+    for ( <name>… ) <expr>               → ok <t1> | <t2> …   (loop targets: iterates + resolve_right_to_left; extends the env)
+    here <expr>                          → ok <type>     (an expression in the current env, e.g. a `return` value)
     infer <env> <expr>                   → ok <short notation> | <error>      (threads the session state)
     pytype <valenv> <expr>               → ok <short notation of typeOf (eval …)> | <error>
 
   All arguments are s-expressions whose tokens are separated by single blanks:
     type   int float bool str None Unknown | ( list T ) ( dict K V ) ( tuple T* ) ( union T* ) ( cls name T* ) ( tvar name )
     env    ( ( name T ) … )
+    ct     ( ( Class Base|- ( member field|classVar|method|property|classMethod T ) … ) … )
     expr   ( int 12 ) ( float 1.5 ) ( str <hex> ) true false none empty ( var x ) ( factor +|-|~ e ) ( not e )
            ( bin e op e … ) ( cmp e op e … ) ( and e… ) ( or e… ) ( tern a c b ) ( list e… ) ( dict k v … ) ( tuple e… )
            ( index r k ) ( slice r lo hi ) ( group e ) ( call r m e… ) ( fcall f e… )
@@ -70,6 +77,21 @@ def toEnv : Sx → Option Env
     | _ => none)
   | _ => none
 
+def toKind : String → Option MKind
+  | "field" => some .field | "classVar" => some .classVar | "method" => some .method
+  | "property" => some .property | "classMethod" => some .classMethod
+  | _ => none
+
+def toClassTable : Sx → Option ClassTable
+  | .node cs => allSome (cs.map fun c => match c with
+    | .node (.atom n :: .atom b :: ms) => do
+      let members ← allSome (ms.map fun m => match m with
+        | .node [.atom a, .atom k, t] => do pure (⟨s2l a, ← toKind k, ← toTy t⟩ : Member)
+        | _ => none)
+      pure (⟨s2l n, if b == "-" then none else some (s2l b), members⟩ : ClassDecl)
+    | _ => none)
+  | _ => none
+
 def toBOp : String → Option BOp
   | "+" => some .add | "-" => some .sub | "*" => some .mul | "/" => some .div | "%" => some .mod
   | "|" => some .bor | "^" => some .bxor | "&" => some .band | "<<" => some .shl | ">>" => some .shr
@@ -116,6 +138,7 @@ partial def toExpr : Sx → Option Expr
   | .node [.atom "index", r, k] => do pure (.index (← toExpr r) (← toExpr k))
   | .node [.atom "slice", r, lo, hi] => do pure (.slice (← toExpr r) (← toExpr lo) (← toExpr hi))
   | .node [.atom "group", e] => (toExpr e).map .group
+  | .node [.atom "attr", r, .atom a] => (toExpr r).map fun x => .attr x (s2l a)
   | .node (.atom "call" :: r :: .atom m :: es) => do
     pure (.call (← toExpr r) (s2l m) (exprsOf (← allSome (es.map toExpr))))
   | .node (.atom "fcall" :: .atom f :: es) => do pure (.fcall (s2l f) (exprsOf (← allSome (es.map toExpr))))
@@ -167,20 +190,64 @@ def toValEnv : Sx → Option VEnv
 
 structure St where
   unionTaken : Bool := false
+  ct : ClassTable := []
+  env : Env := []
 
 def step (st : St) : List String → St × String
   | ["new"] => ({ unionTaken := false }, "ok")
+  | ["classes", c] =>
+    match parseAll c >>= toClassTable with
+    | some ct => ({ st with ct := ct }, "ok")
+    | none => (st, "bad-op")
+  | ["env", env] =>
+    match parseAll env >>= toEnv with
+    | some Γ => ({ st with env := Γ }, "ok")
+    | none => (st, "bad-op")
+  | ["bind", x, t] =>
+    match parseAll t >>= toTy with
+    | some ty => ({ st with env := (s2l x, ty) :: st.env }, "ok")
+    | none => (st, "bad-op")
+  | ["decl", x, e] =>
+    match parseAll e >>= toExpr with
+    | some ex =>
+      match infer st.ct st.env ex st.unionTaken with
+      | (.ok t, s) => ({ st with unionTaken := s, env := (s2l x, t) :: st.env }, "ok " ++ t.render)
+      | (.error er, s) => ({ st with unionTaken := s }, er.toString)
+    | none => (st, "bad-op")
+  | ["here", e] =>
+    match parseAll e >>= toExpr with
+    | some ex =>
+      match infer st.ct st.env ex st.unionTaken with
+      | (.ok t, s) => ({ st with unionTaken := s }, "ok " ++ t.render)
+      | (.error er, s) => ({ st with unionTaken := s }, er.toString)
+    | none => (st, "bad-op")
+  | ["for", vs, e] =>
+    match parseAll vs, parseAll e >>= toExpr with
+    | some (.node names), some ex =>
+      match allSome (names.map fun v => match v with | .atom x => some (s2l x) | _ => none) with
+      | some vars =>
+        match infer st.ct st.env ex st.unionTaken with
+        | (.ok t, s) =>
+          (match iterates st.ct t with
+           | .ok elem =>
+             let bs := bindVars vars elem
+             ({ st with unionTaken := s, env := bs ++ st.env },
+              "ok " ++ " | ".intercalate (bs.map fun b => if b.2 = noSuchAttr then "IndexError" else b.2.render))
+           | .error er => ({ st with unionTaken := s }, er.toString))
+        | (.error er, s) => ({ st with unionTaken := s }, er.toString)
+      | none => (st, "bad-op")
+    | _, _ => (st, "bad-op")
   | ["infer", env, e] =>
     match parseAll env >>= toEnv, parseAll e >>= toExpr with
     | some Γ, some ex =>
-      match infer Γ ex st.unionTaken with
-      | (.ok t, s) => ({ unionTaken := s }, "ok " ++ t.render)
-      | (.error er, s) => ({ unionTaken := s }, er.toString)
+      match infer st.ct Γ ex st.unionTaken with
+      | (.ok t, s) => ({ st with unionTaken := s }, "ok " ++ t.render)
+      | (.error er, s) => ({ st with unionTaken := s }, er.toString)
     | _, _ => (st, "bad-op")
   | ["pytype", env, e] =>
     match parseAll env >>= toValEnv, parseAll e >>= toExpr with
     | some ρ, some ex =>
-      match eval ρ ex with
+      match eval World.none ρ ex with
       | .ok v => (st, "ok " ++ (typeOf v).render ++ "\t" ++ v.render)
       | .error er => (st, er.toString)
     | _, _ => (st, "bad-op")
